@@ -97,6 +97,10 @@ func c05SCION(r *ev.Run, rng *rand.Rand, nScripts int) {
 				case "scion: destination host is a service address with the bytes of the client's IP address":
 					t, a := slayers.AddrType(slayers.T4Svc), cliIP.As4()
 					pkt.RawDstType, pkt.RawDst = &t, a[:]
+				case "scion: UDP source port is not the port that was queried":
+					pkt.SrcPort ^= 0x5555
+				case "scion: UDP destination port is not the client's port":
+					pkt.DstPort ^= 0x2aaa
 				case "scion: source and destination exchanged":
 					pkt.SrcIA, pkt.DstIA, pkt.SrcHost, pkt.DstHost = pkt.DstIA, pkt.SrcIA, pkt.DstHost, pkt.SrcHost
 				}
@@ -139,7 +143,8 @@ func c05SCION(r *ev.Run, rng *rand.Rand, nScripts int) {
 			"scion: source host is an IPv6 address ending in the server's IPv4 address", "scion: destination host is an IPv6 address ending in the client's IPv4 address",
 			"scion: source host is the IPv4-mapped form of another host",
 			"scion: source host is a service address with the bytes of the server's IP address",
-			"scion: destination host is a service address with the bytes of the client's IP address"} {
+			"scion: destination host is a service address with the bytes of the client's IP address",
+			"scion: UDP source port is not the port that was queried", "scion: UDP destination port is not the client's port"} {
 			keep = append(keep, c05Mut{name: n, forceBad: true})
 		}
 		c05Leg(r, name, p, keep, func(ctx context.Context) (time.Time, time.Duration, error) {
